@@ -112,6 +112,10 @@ class SepWorld(BaseWorld):
                 split = r.choice([0.0, 0.25, 0.5, 1.0]) if r.random() < 0.4 else \
                     [r.choice([0.0, 0.1, 0.5, 0.9, 1.0]) for _ in range(pk.n)]
                 ev = {'op': op, 'ins': nm[:k], 'top': nm[k], 'bottom': nm[k + 1], 'split': split}
+                # `ins : Iterable[Stream]`: a list, a tuple or a one-shot iterable
+                form = r.choice(['list', 'list', 'tuple', 'generator', 'iterator'])
+                if form != 'list':
+                    ev['ins_form'] = form
                 if op == 'mix_split_moisture':
                     ev['mc'] = r.choice([0.1, 0.3, 0.5, 0.8, 0.94])
                     ev['strict'] = r.choice([None, True, False])
@@ -298,8 +302,18 @@ class SepWorld(BaseWorld):
         self.stats['fault:dirty_outlet'] += 1
         return self.do_set_flows(ev)
 
+    @staticmethod
+    def as_iterable(streams, form):
+        if form == 'tuple':
+            return tuple(streams)
+        if form == 'generator':
+            return (i for i in streams)
+        if form == 'iterator':
+            return iter(list(streams))
+        return list(streams)
+
     def do_mix_and_split(self, ev):
-        ins = [self.S[n] for n in ev['ins']]
+        ins = self.as_iterable([self.S[n] for n in ev['ins']], ev.get('ins_form'))
         top, bottom = self.S[ev['top']], self.S[ev['bottom']]
         before = [self.mol(n) for n in ev['ins']]
         split = np.array(ev['split'], float) if isinstance(ev['split'], list) else ev['split']
@@ -364,7 +378,7 @@ class SepWorld(BaseWorld):
         return self._moisture_check(ev, ev['retentate'], ev['permeate'], ev['mc'], before, r, F_ref)
 
     def do_mix_split_moisture(self, ev):
-        ins = [self.S[n] for n in ev['ins']]
+        ins = self.as_iterable([self.S[n] for n in ev['ins']], ev.get('ins_form'))
         top, bottom = self.S[ev['top']], self.S[ev['bottom']]
         before = sum(self.mol(n) for n in ev['ins'])
         split = np.array(ev['split'], float) if isinstance(ev['split'], list) else ev['split']
